@@ -774,7 +774,11 @@ func (x *exec) reenterHavoc(st *State, fr *Frame, ins ssa.Instruction, ci callee
 		hit := false
 		for _, c := range re.Callees {
 			if c == "*" {
-				hit = true // another goroutine may write the locations at any time: forgotten after every call
+				// another goroutine may write the locations at any time: forgotten after every call that is an observable step
+				// of the unit (not after logging and pure getters, so that adding or removing such a call changes nothing)
+				if fs := x.e.w.Contracts[ci.key]; fs == nil || !(fs.Pure || fs.Silent) {
+					hit = true
+				}
 				continue
 			}
 			want := x.resolveCalleeName(x.unit.Spec.Pkg, c)
